@@ -6,12 +6,13 @@
    the transaction chain are processed to the end whatever they contain (totality of [apply_tx_block]
    and of the holding pass outside the PEG-bank era), from the invariants [hist_closed] / [bal_room]
    that every reachable state is proved to satisfy; and the exact list of failure codes that remain
-   when nothing is assumed about the entries.  Not covered by a totality theorem: the grading glue,
-   insert_rates, the snapshot / developer payouts, factoid burns (their inputs are not user-controlled
-   beyond amounts) and bank-era PEG requests (recorded finding); those are tied by the adversarial
-   chains run through the real node. *)
+   when nothing is assumed about the entries; and, for every height of the live era (from 2.0.2 on), the
+   WHOLE block function: [step_block] returns [Done] under named hypotheses (C08_step_block_total), with
+   the chain-level corollary.  Not covered by a totality theorem: heights below the 2.0.2 activation
+   (PEG bank, legacy snapshot failure, PEG-equation SUM, factoid burns: closed eras, with the recorded
+   finding on mixed bank-era batches); those are tied by the adversarial chains run through the real node. *)
 From Model Require Import Examples.
-From Lemmas Require Import StatusLemmas TotalityLemmas TotalityHolding TotalityInvariant TotalityRange TotalityCodes TotalityExamples TotalityMain.
+From Lemmas Require Import StatusLemmas TotalityLemmas TotalityHolding TotalityInvariant TotalityRange TotalityCodes TotalityExamples TotalityMain TotalityBlockParts TotalityAdjust TotalityBlock TotalityChain TotalityBlockExamples.
 Open Scope Z_scope.
 
 (* an entry that does not decode, does not validate, or carries a key type not yet active is skipped *)
@@ -102,6 +103,36 @@ Check holding_then_block_total_instance.
 Check bank_era_mixed_batch_fails.
 Check burn_signer_fails.
 Check full_cell_fails.
+
+(* ---- the whole block function, live era ----------------------------------------------------------------------
+   [block_hyps c cm mem b] (Lemmas/TotalityBlock.v; [block_hypsb] is the same as one boolean) names what is asked:
+   the block lies in the live era (transaction, 2.0, developer-reward and 2.0.2 activations passed); nothing is
+   recorded for its height yet; the grader oracles answer and the winning records carry distinct asset names with
+   values below 2^63; decoded batches (arriving and held) have what the decoder and the signature check guarantee;
+   the synthetic hashes the block writes are fresh; every stake converts; and there is room below 2^63 for what
+   the block credits.  Under these NOTHING on the three chains can make the block fail: it is applied, and the
+   invariants hold again. *)
+Theorem C08_step_block_total : forall c cm mem b,
+  hist_closed cm -> bal_room cm 0 -> block_hyps c cm mem b ->
+  exists s' mem', step_block c cm mem b = Done (s', mem') /\ hist_closed s' /\ bal_room s' 0 /\
+                  HistoryLemmas3.cache_nonneg mem' /\
+                  (forall k, k <> b_height b -> grades s' !! k = grades cm !! k) /\
+                  (forall r, In r (winners s') -> In r (winners cm) \/ fst (fst (fst (fst r))) = b_height b).
+Proof. exact step_block_total. Qed.
+Print Assumptions C08_step_block_total.
+
+(* chains: strictly increasing heights, every block meeting its hypotheses in the state it finds *)
+Theorem C08_replay_total : forall c bs h,
+  increasing_from h bs -> chain_hyps c genesis empty_cache bs ->
+  exists s m, replay c genesis empty_cache bs = Done (s, m) /\ hist_closed s /\ bal_room s 0.
+Proof. exact replay_total_genesis. Qed.
+Print Assumptions C08_replay_total.
+
+(* hypotheses satisfiable on live-era blocks (unrated, rated with held conversions and hostile entries, both
+   snapshot kinds, the three one-time adjustment heights); and for each excluded case the model really is Stuck:
+   Lemmas/TotalityBlockExamples.v *)
+Check replay_total_live_chain.
+Check replay_total_activation_heights.
 
 Example C08_example :
   (* in the example chain entry 601 appears twice in block 102 and an overdraft is attempted in 103:
